@@ -640,6 +640,15 @@ def check_table_get(ctx):
         ctx.check(holds(atoms, ("==", "start", "limit")) and holds(atoms, ("<", "index", "fr->num")), "T2-filter-fail-open", "empty-filter",
                   fm.name, site(fm, e), "only an empty filter answers no without consulting the policy",
                   "filter answers no under %s" % fmt_atoms(atoms))
+    # a filter of length zero is still the policy's to judge (a user policy may emit an empty filter meaning "no
+    # information"): the policy is consulted iff start <= limit (not <) and the slice lies inside the filter data
+    from ..rules import holds_exact
+    pc = [(b, i, e) for (b, i, e) in fm.events("call") if is_call(e, "ldb_slice_set")]
+    if pc:
+        a3 = gf.must_at(pc[0][0], pc[0][1])
+        ctx.check(holds_exact(a3, ("<=", "start", "limit")), "T2-filter-fail-open", "policy-judges-empty-filter", fm.name, site(fm, pc[0][2]),
+                  "the policy is consulted for every well-formed filter slice, the empty one included",
+                  "the filter slice is handed to the policy under %s (expected start <= limit)" % fmt_atoms(a3))
     ones = [e for b, i, e in fm.events("ret") if const_val(e.get("x")) == 1]
     bm = [e for b, i, e in fm.events("ret") if "ldb_bloom_match" in _macs(e.get("x")) or "policy->match" in key(e.get("x"))]
     other = [e for b, i, e in fm.events("ret") if const_val(e.get("x")) not in (0, 1) and e not in bm]
